@@ -146,6 +146,11 @@ pub struct World {
     /// some job behaved non-deterministically earlier in this chain (flaky Ephemeral): the
     /// clean-build comparison of C01 does not apply to worlds derived from it
     pub tainted: bool,
+    /// ground truth kept by the world, independent of the engine's records: per job, the output
+    /// of each direct upstream that its last successful execution consumed ...
+    pub built: BTreeMap<String, BTreeMap<String, String>>,
+    /// ... and the jobs a failed or interrupted attempt has touched since
+    pub dirty: BTreeSet<String>,
 }
 
 pub const GARBAGE: &str = "{\"GARBAGE\":true}";
@@ -162,6 +167,8 @@ impl World {
             cmp,
             conv,
             tainted: false,
+            built: BTreeMap::new(),
+            dirty: BTreeSet::new(),
         }
     }
     /// content map (name -> content) of job j given the materialised content maps of its upstreams
